@@ -127,7 +127,11 @@ func Tags(stack []string, exit string) []string {
 		case "try":
 			add("exit-out-of-try")
 		case "operand", "argument":
-			add("exit-from-expr-context")
+			// a throw that is caught restores the operand stack height recorded by its handler;
+			// only jumps (break/continue/return) leave the pending operands behind
+			if exit != "throw" {
+				add("exit-from-expr-context")
+			}
 		case "call":
 			if exit == "throw" {
 				add("throw-across-call")
